@@ -20,7 +20,8 @@ from harness.common import exc_name, jdump
 PID = "C07"
 TITLE = "Nested-dictionary algebra: intersection, difference and recursive update"
 LEAN_MODULES = ["LenaModel.Props.C07"]
-LEAN_SOURCES = ["LenaModel/Model/Val.lean", "LenaModel/Model/C07.lean", "LenaModel/Lemmas/C07.lean",
+LEAN_SOURCES = ["LenaModel/Model/Val.lean", "LenaModel/Model/C07.lean", "LenaModel/Model/C07Tok.lean",
+                "LenaModel/Lemmas/C07Tok.lean", "LenaModel/Lemmas/C07.lean",
                 "LenaModel/Lemmas/C07Update.lean", "LenaModel/Lemmas/C07Nested.lean", "LenaModel/Lemmas/C07Level.lean",
                 "LenaModel/Props/C07.lean"]
 DRIVER = "drivers/C07.lean"
@@ -67,6 +68,12 @@ THEOREMS = [
     "Lena.C07.level_covers_inter",
     "Lena.C07.level_covers_diff",
     "Lena.C07.level_covers_cont",
+    # deep copy / aliasing (token model)
+    "Lena.C07.interT_value",
+    "Lena.C07.inter_is_copy",
+    "Lena.C07.inter_shares_nothing",
+    "Lena.C07.diffT_value",
+    "Lena.C07.diff_objects",
     # update_recursively
     "Lena.C07.update_contains",
     "Lena.C07.update_keeps",
@@ -384,6 +391,45 @@ def _shares(res, *args):
     return False
 
 
+def _mut_objs(leaf):
+    """the mutable objects a leaf consists of (the list itself, lists and dictionaries inside it), in preorder"""
+    out = []
+
+    def rec(o):
+        if isinstance(o, (list, dict)):
+            out.append(o)
+            for x in (o.values() if isinstance(o, dict) else o):
+                rec(x)
+    rec(leaf)
+    return out
+
+
+def _tok_tree(v, enc, ctr, idmap=None):
+    """token-annotated slot-vector form of an argument: identities 0, 1, 2, … in preorder (keys in alphabet order);
+    with `idmap`, also records id(object) -> identity"""
+    if isinstance(v, dict):
+        t = ctr[0]
+        ctr[0] += 1
+        if idmap is not None:
+            idmap[id(v)] = t
+        return {"t": t, "s": [(_tok_tree(v[k], enc, ctr, idmap) if k in v else None) for k in enc.keys]}
+    ts = []
+    for o in _mut_objs(v):
+        ts.append(ctr[0])
+        if idmap is not None:
+            idmap[id(o)] = ctr[0]
+        ctr[0] += 1
+    return {"l": enc.cls(v), "t": ts}
+
+
+def _tok_result(v, enc, idmap):
+    """the same form for a result: identity of a known object, -1 for a new one (-2: an object of the second argument)"""
+    if isinstance(v, dict):
+        return {"t": idmap.get(id(v), -1),
+                "s": [(_tok_result(v[k], enc, idmap) if k in v else None) for k in enc.keys]}
+    return {"l": enc.cls(v), "t": [idmap.get(id(o), -1) for o in _mut_objs(v)]}
+
+
 def _fresh(v):
     """a tree-shaped private copy of a case value (copy.deepcopy would preserve aliasing between sub-dictionaries)"""
     return json.loads(json.dumps(v))
@@ -407,6 +453,11 @@ def run_impl(case):
         a, b = _fresh(case["a"]), _fresh(case["b"])
         s0 = _snap(a, b)
         out = {"lv": []}
+        idmap = None
+        if case.get("paths"):
+            enc = _Enc(case)
+            idmap = {i: -2 for i in _mut_ids(b, set())}
+            _tok_tree(a, enc, [0], idmap)
         for lv in case["levels"]:
             r = {}
             iab = _call(lc.intersection, a, b, level=lv)
@@ -421,6 +472,9 @@ def run_impl(case):
             dab = _call(lc.difference, a, b, level=lv)
             r["dab"] = dab
             r["changed"] = _snap(a, b) != s0
+            if idmap is not None and "r" in iab and "r" in dab:
+                # which objects do the results consist of?  (before anything is updated)
+                r["tok"] = {"inter": _tok_result(iab["r"], enc, idmap), "diff": _tok_result(dab["r"], enc, idmap)}
             if "r" in iab and "r" in dab:
                 # freeze the observations before anything is updated (difference may return parts of a)
                 r["iab"] = {"r": copy.deepcopy(iab["r"])}
@@ -597,6 +651,9 @@ def model_requests(case):
         reqs = [{"op": "pair", "n": n, "a": a, "b": b, "levels": case["levels"], "falsy": e.falsy()}]
         if case.get("paths"):
             reqs.append({"op": "paths", "d": a, "o": b, "paths": [e.path(p) for p in _pair_paths(case)]})
+            ctr = [0]
+            ta = _tok_tree(case["a"], e, ctr)
+            reqs.append({"op": "tok", "n": n, "a": ta, "b": b, "c": ctr[0], "levels": case["levels"], "falsy": e.falsy()})
         return reqs
     if op == "multi":
         ds = [e.val(d) for d in case["ds"]]
@@ -636,6 +693,13 @@ def compare(case, res, replies):
         m = replies[0]
         mp = replies[1] if len(replies) > 1 else {"r": []}
         a, b = case["a"], case["b"]
+        if len(replies) > 2:
+            # identity pattern of the results: new object / which object of d1 (token model)
+            for lv, r, mt in zip(case["levels"], res["lv"], replies[2]["r"]):
+                for name in ("inter", "diff"):
+                    if "tok" in r and r["tok"][name] != mt[name]:
+                        return (f"level {lv}: objects of the {'intersection' if name == 'inter' else 'difference'}: impl "
+                                f"{r['tok'][name]} vs token model {mt[name]} (t: identity in d1, -1 new, -2 object of d2)")
         for lv, r, ml in zip(case["levels"], res["lv"], m["r"]):
             for name in ("iab", "iba", "dab", "rec"):
                 got = _obs(e, r.get(name))
